@@ -33,6 +33,13 @@ func (k *Keeper) OptIn(
 	if k.IsOptedIn(ctx, operatorAddress.String(), avsAddr) {
 		return types.ErrAlreadyOptedIn
 	}
+	// an operator that is still removing its key from a chain-type AVS (an opt out that has
+	// not completed yet) cannot opt back in until the removal completes. the key based opt in
+	// is rejected at this point anyway, since a new key cannot be set while removing.
+	if chainID, isChainAvs := k.avsKeeper.GetChainIDByAVSAddr(ctx, avsAddr); isChainAvs &&
+		k.IsOperatorRemovingKeyFromChainID(ctx, operatorAddress, chainID) {
+		return types.ErrAlreadyRemovingKey
+	}
 	// Check if the USD value of the operator is greater than or equal to the self-delegation
 	// configured by the AVS. This is used to prevent a DDOS attack from zero-USD value opting in.
 	operatorUSDValues, err := k.GetOrCalculateOperatorUSDValues(ctx, operatorAddress, avsAddr)
